@@ -80,10 +80,20 @@ def static_configs(thorough, seed):
     for dim, n, kmax, hfull in plan:
         lat = U.lattice(dim, n)
         for k in range(0, kmax + 1):
+            big = (k == kmax and k >= 3)
             for ms in U.multisets(len(lat), k):
                 pts = [lat[i] for i in ms]
-                for hp in h_patterns(k, hv, k <= hfull or thorough):
-                    for ap in arr_patterns(k):
+                hps = h_patterns(k, hv, k <= hfull or thorough)
+                aps = arr_patterns(k)
+                if big and not thorough:
+                    # quick tier: on the largest k keep the uniform and two
+                    # one-large h patterns and two array splits; which ones
+                    # rotates with the seed
+                    hps = [hps[0], hps[1 + seed % (len(hps) - 1)],
+                           hps[1 + (seed + 1) % (len(hps) - 1)]]
+                    aps = [aps[0], aps[1 + seed % (len(aps) - 1)]]
+                for hp in hps:
+                    for ap in aps:
                         yield dict(dim=dim, pts=pts, h=list(hp),
                                    arr=list(ap), narr=2)
 
@@ -144,6 +154,7 @@ def _check_cfg(cfg, table, skip=(), tag=None):
     ne = 0
     pas = U.make_arrays(cfg)
     klass = sig_of(cfg)
+    ref = U.brute_all(pas)
     for name, variants in table.items():
         for kw in variants:
             ident = [tag, name, [list(x) for x in sorted(kw.items())]]
@@ -153,10 +164,11 @@ def _check_cfg(cfg, table, skip=(), tag=None):
             try:
                 nn = U.make_nnps(name, cfg['dim'], pas, kw)
                 got = U.query_all(nn, pas)
-                pr = U.check_lists(pas, got, kw.get('sort_gids', False))
+                pr = U.check_lists(pas, got, kw.get('sort_gids', False), ref)
                 if kw.get('cache'):
                     got2 = U.query_all(nn, pas, use_find_all=True)
-                    pr += U.check_lists(pas, got2, kw.get('sort_gids', False))
+                    pr += U.check_lists(pas, got2,
+                                        kw.get('sort_gids', False), ref)
             except Exception as e:  # noqa
                 pr = [('exception:%s' % type(e).__name__, repr(e))]
             ne += 1
@@ -175,7 +187,8 @@ def _static_job(args):
     ne = 0
     nontriv = set()
     for ci, cfg in enumerate(cfgs):
-        for im in ['identity'] + images:
+        ims = ['identity'] + (images if (thorough or ci % 4 == 0) else [])
+        for im in ims:
             c = image(cfg, im)
             n, probs = _check_cfg(c, table, skip, [ci, im])
             ne += n
